@@ -19,6 +19,7 @@ type AuthCfg struct {
 	Realm         string // bearer: URL of the token endpoint named in the challenge
 	Service       string
 	IssueRefresh  bool     // token endpoint also hands out a refresh token
+	OddTokenJSON  bool     // token endpoint writes expires_in as a string (a sloppy server: the reply does not decode)
 	AllowAnon     bool     // token endpoint issues tokens without credentials
 	Extra         []string // extra WWW-Authenticate header values sent before the real one
 	Prefix        string   // unique prefix of every token issued for this registry
@@ -134,6 +135,9 @@ func (a *AuthCfg) serveToken(h *Host, ev *Event, r *http.Request) *response {
 	tok := fmt.Sprintf("%sBT%d", a.Prefix, a.n)
 	a.Tokens[tok] = true
 	out := map[string]any{"token": tok, "access_token": tok, "expires_in": 3600, "issued_at": time.Now().UTC().Format(time.RFC3339)}
+	if a.OddTokenJSON {
+		out["expires_in"] = "3600"
+	}
 	if a.IssueRefresh {
 		rt := fmt.Sprintf("%sRT%d", a.Prefix, a.n)
 		a.Refresh[rt] = true
